@@ -234,6 +234,26 @@ def gen_budget(rnd, nsources=None, rules='random', views=None, supplemental=None
                              {'name': 'LeapWeeks', 'locals': [], 'filter': 'count(by("week")) >= 2'},
                              {'name': 'LeapDays', 'locals': [], 'filter': 'count(by("day")) >= 2'}]
             b['views'] = (gl, vs)
+    if b['views']:
+        # one merchant paid in the SAME calendar month of two years (a yearly renewal): `months` counts months of the statement period, as by("month") does
+        import copy as _copy
+        from datetime import datetime as _dt
+        s0 = b['sources'][-1]
+        lay = s0['lay']
+        ok = [x for x in s0['rows'] if x['exp'] and x['kind'] == 'ok' and len(x['cells']) == len(lay['roles'])]
+        if ok:
+            jd = lay['roles'].index('date')
+            for d2 in (_dt(2024, 3, 10), _dt(2025, 3, 10)):
+                c = _copy.deepcopy(ok[-1])
+                c['cells'][jd] = d2.strftime(lay['dfmt'])
+                c['exp']['date'] = d2
+                s0['rows'].append(c)
+            dl = {None: ',', 'tab': '\t'}.get(s0['settings'].get('delimiter'), s0['settings'].get('delimiter'))
+            s0['text'] = c05.render_csv(s0['rows'], s0['settings'].get('has_header', True), len(lay['roles']), dl, '\n')
+            s0['exp'] = [r['exp'] for r in s0['rows'] if r['exp']]
+            gl, vs = b['views']
+            b['views'] = (gl, list(vs) + [{'name': 'MonthsAreStatementMonths', 'locals': [], 'filter': 'months == count(by("month"))'},
+                                          {'name': 'RenewedNextYear', 'locals': [], 'filter': 'months >= 2 and count(by("year")) >= 2'}])
     b['currency'] = rnd.choice([None, '${amount}', '{amount} zl', '€{amount}'])
     # settings that name no rules file at all: config/merchants.rules is then used by convention (a budget run with a second settings file)
     b['implicit_rules_file'] = kind == 'rules' and rnd.random() < .15
